@@ -760,8 +760,18 @@ func (g *G) mutate(s *Schema, n int, mix bool) []string {
 	return kinds
 }
 
-// pair returns a current/desired pair and a short description.
+// pair returns a current/desired pair and a short description; unless allowKnown, a pair in one of
+// the input classes of the open known findings is drawn again.
 func (g *G) pair() (Schema, Schema, string) {
+	for try := 0; ; try++ {
+		a, b, d := g.pair1()
+		if g.allowKnown || try > 30 || classify(a, b) == "none" {
+			return a, b, d
+		}
+	}
+}
+
+func (g *G) pair1() (Schema, Schema, string) {
 	a := g.schema()
 	switch g.r.Intn(10) {
 	case 0: // unrelated
